@@ -174,6 +174,11 @@ func (b *c10batch) check(op *c10op, a, bv int64) {
 			if bv < 0 {
 				continue
 			}
+			if bv > 64 && (a > 1 || a < -1) {
+				// |a| ≥ 2 and b > 64: the power does not fit in 64 bits (not judged)
+				b.notFit++
+				continue
+			}
 			want = new(big.Int).Exp(A, B, nil)
 		case "//":
 			// floor division: big.Int.Div is Euclidean; floor = Quo adjusted
@@ -389,11 +394,15 @@ func runC10(w *fw.W) {
 			for e := int64(0); e <= 64; e++ {
 				b.check(pw, a, e)
 			}
+			// exponents beyond 64: the power still fits for the bases -1, 0 and 1
+			for _, e := range []int64{65, 66, 100, 127, 1000, 1001, 1 << 53, 1<<53 + 1, 1<<53 + 2, 1<<53 + 3, math.MaxInt64 - 1, math.MaxInt64} {
+				b.check(pw, a, e)
+			}
 		})
 	}
 
 	// 4. random pairs, seed-determined, batches of 500
-	nb := w.Pick(60, 4000)
+	nb := w.Pick(200, 60000)
 	for k := 0; k < nb; k++ {
 		k := k
 		runBatch(fmt.Sprintf("random batch %d", k), map[string]any{"kind": "random-batch", "batch": k}, "", func(b *c10batch) {
